@@ -31,13 +31,13 @@ def run(rep, tier):
     rid = "C04.M"
     rep.rule(rid, "PRF / MAC / HMAC / KMAC output equals the specification for every key and message value of the shape")
     prep = modes.prepare(tier)
-    ml = (0, 1, 31, 32, 33) if tier == "quick" else (0, 1, 15, 16, 17, 31, 32, 33, 64, 65)
+    ml = (0, 1, 31, 32, 33) if tier == "quick" else tuple(range(0, 35)) + (63, 64, 65, 96, 97, 129, 500)
     cases = []
     for js, cname, layout, maxs, units in prep:
         rep.configs.append(cname)
         rep.units.update(units)
         for n in ml:
-            for o in ((1, 16, 17, 33) if tier == "quick" else (1, 15, 16, 17, 32, 33, 49)):
+            for o in ((1, 16, 17, 33) if tier == "quick" else (1, 2, 15, 16, 17, 31, 32, 33, 49, 100)):
                 cases.append((js, cname, layout, "case_prf", (n, o), "prf message %d output %d" % (n, o), "ascon_prf"))
             cases.append((js, cname, layout, "case_mac", (n,), "mac message %d" % n, "ascon_mac"))
         for n in (0, 1, 15, 16, 17, 40):
